@@ -381,6 +381,33 @@ func (a *Analyzer) execCall(ctx int, v *ssa.Call, s *State, depth int) []*State 
 				tup.elems[i] = ref
 			}
 		}
+		// (*T, ..., error): the pointer is usable exactly when the error is nil
+		if rt, ok := v.Type().(*types.Tuple); ok && rt.Len() >= 2 && isErrorType(rt.At(rt.Len()-1).Type()) && !c.IsInvoke() {
+			var ptrs []int
+			for i := 0; i < rt.Len()-1; i++ {
+				if _, isPtr := rt.At(i).Type().Underlying().(*types.Pointer); isPtr {
+					ptrs = append(ptrs, i)
+				}
+			}
+			if eref, isRef := tup.elems[rt.Len()-1].(ARef); isRef && len(ptrs) > 0 {
+				okS, errS := s, s.clone()
+				okEl := append([]AV(nil), tup.elems...)
+				okEl[rt.Len()-1] = ANil{}
+				for _, i := range ptrs {
+					if pr, isRef := okEl[i].(ARef); isRef {
+						okS.nilx[pr.id] = 2
+					}
+				}
+				a.set(okS, ctx, v, ATuple{okEl})
+				errEl := append([]AV(nil), tup.elems...)
+				errS.nilx[eref.id] = 2
+				for _, i := range ptrs {
+					errEl[i] = ANil{}
+				}
+				a.set(errS, ctx, v, ATuple{errEl})
+				return []*State{okS, errS}
+			}
+		}
 	}
 	if c.IsInvoke() && a.InvokeSummary != nil {
 		a.InvokeSummary(&Handle{A: a, Ctx: ctx, Instr: v, S: s}, v, r)
@@ -442,6 +469,19 @@ func init() {
 			a.set(t2, ctx, v, r2)
 			return []*State{t1, t2}
 		}
+	}
+	// Grow(n) panics for n < 0
+	growPre := func(a *Analyzer, ctx int, v *ssa.Call, s *State) []*State {
+		ok := false
+		if n, isLin := asLin(a.val(s, ctx, v.Call.Args[1])); isLin {
+			ok = s.provesLE(n.scale(-1))
+			a.oblige(v, "libpre", "Grow("+v.Call.Args[1].Name()+") with a non-negative count", ok, s)
+			s.addLE(n.scale(-1))
+		} else {
+			a.oblige(v, "libpre", "Grow("+v.Call.Args[1].Name()+") with a non-negative count", false, s)
+		}
+		a.set(s, ctx, v, AOther{})
+		return []*State{s}
 	}
 	summaries = map[string]summary{
 		"strings.IndexByte": idx(0), "strings.LastIndexByte": idx(0), "strings.Index": idx(0),
@@ -530,6 +570,8 @@ func init() {
 			a.set(s, ctx, v, r)
 			return []*State{s}
 		},
+		"(*strings.Builder).Grow": growPre,
+		"(*bytes.Buffer).Grow":    growPre,
 		"(net.IP).To4":  ipTo(4),
 		"(net.IP).To16": ipTo(16),
 		"(time.Duration).String": func(a *Analyzer, ctx int, v *ssa.Call, s *State) []*State {
